@@ -451,9 +451,9 @@ func splitPeriod(mpd *m.MPD, a *asset, cfg *ResponseConfig, wTimes wrapTimes) er
 	if cfg.liveMPDType() != segmentNumber {
 		// The timeline may start with a segment that begins before the time-shift window and (with an
 		// availabilityTimeOffset) end with one that begins after now: every listed segment needs its period.
-		// A listed segment begins less than one period before the window and less than the offset after now,
-		// which bounds the range whatever the timeline says.
-		minStartPeriodNr := startPeriodNr - 1
+		// A listed segment begins less than one loop (no segment is longer) before the window and less than the
+		// offset after now, which bounds the range whatever the timeline says.
+		minStartPeriodNr := (wTimes.startTimeMS - astMS - a.LoopDurMS) / (periodDur * 1000)
 		maxEndPeriodNr := endPeriodNr
 		if ato := cfg.getAvailabilityTimeOffsetS(); ato > 0 && !math.IsInf(ato, 1) {
 			maxEndPeriodNr = (wTimes.nowMS + int(math.Round(ato*1000)) - astMS) / (periodDur * 1000)
